@@ -370,6 +370,9 @@ def cmdShape (st : State) (fv : List Int) (gs : List String) : List String :=
   | some gids =>
     let tbl := st.ir.gattrValues
     let p : Eng.Prog := { ir := st.ir, nuser := st.ir.numUser, feats := fun f => fv.getD f 0, advOf := fun g => st.ir.advances.getD g 0,
+                          pointOf := fun nm g => match st.ir.points.find? (·.1 == nm) with
+                            | some (_, vs) => (match vs.find? (·.1 == g) with | some (_, x, y) => (x, y) | none => (0, 0))
+                            | none => (0, 0),
                           gvals := fun g a => match tbl.find? (·.1 == g) with | some (_, vs) => vs.getD a 0 | none => 0 }
     let (out, stalled) := Eng.shape p gids
     let pos := Eng.positions out
